@@ -140,6 +140,9 @@ func main() {
 		methods := fs.Bool("methods", false, "run exported methods on the value returned without error")
 		zero := fs.Bool("zero", false, "receiver is the zero value")
 		unitsec := fs.Int("unitsec", 400, "unit time limit")
+		onerr := fs.Bool("onerror", false, "run exported argument-free methods on the value returned with an error (C20)")
+		nocon := fs.String("nocontract", "", "comma-separated functions whose contracts are ignored (bodies executed)")
+		inlpre := fs.Bool("inlinepre", false, "execute a callee's body when its precondition is not provable")
 		fs.Parse(os.Args[2:])
 		args := fs.Args()
 		p, err := gvc.Load(*repo, true)
@@ -152,6 +155,13 @@ func main() {
 		cfg.MaxUnroll = *unroll
 		cfg.QuickLoopCap = *qcap
 		cfg.UnitSec = *unitsec
+		cfg.InlineOnPreFail = *inlpre
+		if *nocon != "" {
+			cfg.NoContracts = map[string]bool{}
+			for _, n := range strings.Split(*nocon, ",") {
+				cfg.NoContracts[n] = true
+			}
+		}
 		if *prof != "" {
 			f, _ := os.Create(*prof)
 			pprof.StartCPUProfile(f)
@@ -163,7 +173,7 @@ func main() {
 				fmt.Println("not found:", args[i])
 				os.Exit(2)
 			}
-			r := gvc.VerifyFunc(p, fn, cfg, gvc.Options{UseRequires: true, CheckPosts: *posts, NoAlias: *noalias, MethodsOnSuccess: *methods, ZeroRecv: *zero})
+			r := gvc.VerifyFunc(p, fn, cfg, gvc.Options{UseRequires: true, CheckPosts: *posts, NoAlias: *noalias, MethodsOnSuccess: *methods, MethodsOnError: *onerr, ZeroRecv: *zero})
 			if *asJSON {
 				b, _ := json.MarshalIndent(r, "", " ")
 				fmt.Println(string(b))
